@@ -295,6 +295,27 @@ def c_controller(which):
     return f
 
 
+def c_controller_default(which):
+    def f():
+        sys.path.insert(1, os.path.dirname(HERE))
+        from mc.fakenet import Net, Patched
+        from rig.machine_control import scp_connection as sc
+        from rig.machine_control import machine_controller as mcm
+        from rig.machine_control import bmp_controller as bm
+        net = Net(lambda sock, data, net: [], budget=10 ** 6)
+        with Patched(net, [sc, mcm, bm]):
+            mc = mcm.MachineController("host")
+            bc = bm.BMPController("bmp")
+            out = [mc.get_context_arguments(), bc.get_context_arguments()]
+            mc.update_current_context(app_id=10 + which, x=which)
+            bc.update_current_context(board=3 + which)
+            with mc(y=1):
+                mc.update_current_context(p=which)
+            out.append(mc.get_context_arguments())
+        return canon(out), []
+    return f
+
+
 def c_boot(which):
     def f():
         sys.path.insert(1, os.path.dirname(HERE))
@@ -385,6 +406,8 @@ def call_table():
         ("bitfield1", c_bitfield(1)),
         ("mc0", c_controller(0)),
         ("mc1", c_controller(1)),
+        ("mc_default0", c_controller_default(0)),
+        ("mc_default1", c_controller_default(1)),
         ("boot_spin3", c_boot(0)),
         ("boot_plain", c_boot(1)),
         ("boot_dict", c_boot(2)),
@@ -519,7 +542,7 @@ def server(repo, tier, first):
         res.pop("hidden", None)
         out.write(json.dumps(res) + "\n")
     probes2 = [n for n in names if n in (
-        "seq", "route20", "oc", "oc_c", "oc_p2", "mts", "bitfield1", "mc0",
+        "seq", "route20", "oc", "oc_c", "oc_p2", "mts", "bitfield1", "mc0", "mc_default1",
         "boot_plain", "sa_py", "machine", "tables", "rde")]
     for b in seconds:
         for p in (probes2 if tier == "quick" else names):
